@@ -369,7 +369,9 @@ def createTrace (cfg : Cfg) : Trace :=
   .bcast :: (if cfg.safe then [.allreduce] else []) ++ [.commDup, .bcast, .fileOpen] ++ aggrInit cfg
 /-- one hdr_fetch -/
 def hdrFetch (cfg : Cfg) : Trace :=
-  (if cfg.hcoll then [.readAll] else []) ++ (if cfg.safe then [.bcast] else []) ++ [.bcast]
+  -- the read status is shared by an MPI_Allreduce(MIN) whether or not safe mode is on (since /repo commit
+  -- 0c9c1029; before it a safe-mode-only MPI_Bcast), then root's bytes are broadcast
+  (if cfg.hcoll then [.readAll] else []) ++ [.allreduce, .bcast]
 def openTrace (cfg : Cfg) (nChunks : Nat) : Trace :=
   .bcast :: (if cfg.safe then [.allreduce] else []) ++ [.commDup, .fileOpen] ++
     (List.replicate nChunks (hdrFetch cfg)).flatten ++ aggrInit cfg
